@@ -258,14 +258,42 @@ Section CoordsEq.
 End CoordsEq.
 
 (* ---- _get_surrounding against the model's neighbour function --------------------------------------------------------- *)
-(* instantiated with the C11 codec model: the eight probes, their order, the offsets of two error margins, the
-   re-encoding at the same length and base *)
+(* for every codec and every Coordinate constructor: the eight probes, their order, the offsets of two error margins,
+   the re-encoding at the same length and base (all symbols abstract, so a mismatch fails at once) *)
+Section SurroundEq.
+  Variable dec : list Z -> Z -> res (Q * Q * Q * Q).
+  Variable enc : Q * Q -> Z -> Z -> list Z.
+  Variable mk : Q -> Q -> Q * Q.
+  Local Open Scope Q_scope.
+
+  Lemma geq_get_surrounding_generic : forall gh base,
+    g_get_surrounding dec enc mk gh base =
+    match dec gh base with
+    | Err e => Err e
+    | Ok (lon, lat, elon, elat) =>
+        let e (x y : Q) := enc (mk x y) (py_len gh) base in
+        Ok [ e lon (lat + elat * 2);
+             e (lon + elon * 2) (lat + elat * 2);
+             e (lon + elon * 2) lat;
+             e (lon + elon * 2) (lat - elat * 2);
+             e lon (lat - elat * 2);
+             e (lon - elon * 2) (lat - elat * 2);
+             e (lon - elon * 2) lat;
+             e (lon - elon * 2) (lat + elat * 2) ]
+    end.
+  Proof.
+    intros. unfold g_get_surrounding. destruct (dec gh base) as [[[[lon lat] elon] elat]|e]; reflexivity.
+  Qed.
+End SurroundEq.
+
+(* instantiated with the C11 codec model and the C08 Coordinate model: FloodM.get_surrounding *)
 Lemma geq_get_surrounding : forall base c gh, cfg_of_base base = Some c ->
   g_get_surrounding (fun s b => decode_niemeyer b s)
-                    (fun p len b => match coord_to_niemeyer b p len with Ok s => s | Err _ => [] end) gh base =
+                    (fun p len b => match coord_to_niemeyer b p len with Ok s => s | Err _ => [] end) coordinate gh base =
   match decode c gh with Err e => Err e | Ok _ => Ok (get_surrounding c gh) end.
 Proof.
-  intros base c gh H. unfold g_get_surrounding, get_surrounding, decode_niemeyer, coord_to_niemeyer. rewrite H.
+  intros base c gh H. rewrite geq_get_surrounding_generic.
+  unfold get_surrounding, decode_niemeyer, coord_to_niemeyer. rewrite H.
   destruct (decode c gh) as [[[[lon lat] elon] elat]|e]; [|reflexivity].
   unfold py_len. rewrite Nat2Z.id. reflexivity.
 Qed.
@@ -273,7 +301,7 @@ Qed.
 Lemma geq_get_surrounding_nbr : forall base c gh, cfg_of_base base = Some c ->
   get_surrounding c gh =
   match g_get_surrounding (fun s b => decode_niemeyer b s)
-                          (fun p len b => match coord_to_niemeyer b p len with Ok s => s | Err _ => [] end) gh base with
+                          (fun p len b => match coord_to_niemeyer b p len with Ok s => s | Err _ => [] end) coordinate gh base with
   | Ok l => l
   | Err _ => []
   end.
